@@ -1,11 +1,12 @@
-(* C20 -- last assignment wins / notations equivalent / rejection, on the whole generated schema *)
+(* C20 -- last assignment wins / notations equivalent / rejection / source-form obligations,
+   on the whole generated schema *)
 From Coq Require Import ZArith List Bool String Ascii.
 From MV Require Import Lib.STree Model.StyleModel Gen.GenStyle Model.StyleExec Model.StyleSpec.
 Import ListNotations.
 Open Scope string_scope.
 Open Scope list_scope.
 
-Lemma defaults_build_ok : snd (defaults_new colors defaults_schema DEFAULTS) = None.
+Lemma defaults_build_ok : snd (defaults_new colors reset_mode defaults_schema DEFAULTS) = None.
 Proof. vm_compute. reflexivity. Qed.
 
 Lemma ctor_ok : ctor_forwards_style = true.
@@ -17,27 +18,41 @@ Proof. vm_compute. reflexivity. Qed.
 Lemma lw_all_ok : lw_all = true.
 Proof. vm_cast_no_check (eq_refl true). Qed.
 
-Definition p_asize : path := ["magnetization"; "arrow"; "size"].
-
-(* the alias: after arrow.size = 2 (attribute), update(magnetization_arrow_size=0.5) leaves 2 *)
-Lemma lw_alias_witness :
-  In ("MagnetStyle", schema_MagnetStyle) style_classes /\
-  In (p_asize, KNumGe0, false) (sleaves schema_MagnetStyle) /\
-  In (VInt 2) (two KNumGe0) /\ In (VFlt 1 2) (two KNumGe0) /\
-  In NAttr (notations p_asize) /\ In (NUnder 0) (notations p_asize) /\
-  lw_holds schema_MagnetStyle p_asize (VInt 2) (VFlt 1 2) NAttr (NUnder 0) = false /\
-  leaf_is schema_MagnetStyle
-       (fst (set_leaf schema_MagnetStyle
-               (fst (set_leaf schema_MagnetStyle (fresh_state schema_MagnetStyle) p_asize (Some (VInt 2)) NAttr))
-               p_asize (Some (VFlt 1 2)) (NUnder 0)))
-       p_asize (Some (VInt 2)) = true.
-Proof.
-  split; [right; left; reflexivity|].
-  split; [apply (nth_error_In _ (leaf_index schema_MagnetStyle p_asize)); vm_compute; reflexivity|].
-  split; [left; reflexivity|]. split; [right; left; reflexivity|].
-  split; [left; reflexivity|]. split; [right; left; reflexivity|].
-  split; vm_compute; reflexivity.
-Qed.
-
 Lemma reject_all_ok : reject_all = true.
 Proof. vm_cast_no_check (eq_refl true). Qed.
+
+(* the constructor does not write into the caller's style dict (form of _process_style_kwargs in GenStyle) *)
+Lemma ctor_caller_dict_ok : forall style kwargs : dict,
+  ctor_caller_dict_after ctor_copies_style style kwargs = style.
+Proof. intros style kwargs. reflexivity. Qed.
+
+Lemma magic_fresh_ok : magic_merge_fresh = true.
+Proof. reflexivity. Qed.
+
+Lemma recursion_ok : recursion_forwards_style_kwargs = true.
+Proof. reflexivity. Qed.
+
+(* magic_to_dict (first level) leaves its argument as it was, for every argument *)
+Lemma magic_arg_unchanged : forall arg : dict, magic_caller_arg_after magic_merge_fresh arg = arg.
+Proof.
+  intros arg. unfold magic_caller_arg_after, magic_merge_fresh.
+  generalize (@nil string) as owned. generalize arg at 1 as items.
+  induction items as [|[k v] r IH]; intros owned; simpl; [reflexivity|].
+  destruct (split_on us k) as [|k0 [|k1 rest]]; try apply IH.
+  destruct (smem k0 owned); apply IH.
+Qed.
+
+(* record of the in-place form: update(d, path_show=True) with d = {"path": {}} wrote into d *)
+Lemma magic_arg_inplace_witness :
+  magic_caller_arg_after false [("path", Node []); ("path_show", Leaf (Some (VBool true)))]
+  = [("path", Node [("show", Leaf (Some (VBool true)))]); ("path_show", Leaf (Some (VBool true)))].
+Proof. vm_compute. reflexivity. Qed.
+
+(* record of the variant before 4641759 (alias listed by as_dict): arrow.size = 2 by attribute, then
+   update(magnetization_arrow_size=0.5) left 2; with the generated schema it gives 0.5 *)
+Definition p_asize : path := ["magnetization"; "arrow"; "size"].
+
+Lemma lw_alias_variant_witness :
+  lw_holds (unhide schema_MagnetStyle) p_asize (VInt 2) (VFlt 1 2) NAttr (NUnder 0) = false /\
+  lw_holds schema_MagnetStyle p_asize (VInt 2) (VFlt 1 2) NAttr (NUnder 0) = true.
+Proof. split; vm_compute; reflexivity. Qed.
